@@ -5,6 +5,7 @@ go 1.15
 require (
 	github.com/go-gts/gts v0.0.0
 	github.com/go-pars/pars v1.1.6
+	github.com/go-wrap/wrap v1.0.3
 )
 
 replace github.com/go-gts/gts => /repo
